@@ -24,6 +24,8 @@ def main():
     try:
         mod = importlib.import_module("p_" + pid.lower())
         mod.run(chk)
+        if hasattr(mod, "_siblings"):
+            mod._siblings(chk)
     except AnchorMissing as e:
         chk.fail_closed("anchor", str(e))
     except Exception as e:  # a crashing rule must never look like a pass
